@@ -13,11 +13,13 @@ from sim.kernel import Kernel, SimKilled, SimProc, SpinDetected
 NAME = "cluster"
 CTRL = "tcp://localhost:12000"
 FAULT_DEADLINE_S = 300      # C05 clause 1: run() must end within this much virtual time after the last fault fired
+FAULT_DEADLINE_LOSSY_S = 450   # ... on a lossy network: a lost ExecutorShutdown is not resent, Bridge.shutdown then waits out its 180 s grace,
+                               # and it runs twice (once inside recv_events, once in run()'s finally)
 CLEAN_DEADLINE_S = 200      # C05 clause 3: everything gone within this much after run() ended
 
 
 def gen_plan(rng, opts=None):
-    o = dict(nmax=8, hmax=3, wmax=2, max_out=3, lossy=False, jitter=True, faults=None, gpu=True)
+    o = dict(nmax=8, hmax=3, wmax=2, max_out=3, lossy=False, jitter=True, faults=None, gpu=True, fair=False)
     o.update(opts or {})
     if o.get("graph"):
         gp = G.gen_graph_plan(rng, o.get("graph_opts"))
@@ -34,6 +36,9 @@ def gen_plan(rng, opts=None):
     net = dict(lat_lo=50_000, lat_hi=lat_hi, drop=0, dup=0)
     if o["lossy"]:
         net.update(drop=rng.choice([0, 5, 15, 30]), dup=rng.choice([0, 5, 15]), max_consec=rng.choice([3, 8, None]))
+        if o.get("fair"):
+            # fair loss: every logical message loses at most 6 of its frames/acks (retry budget 20), latencies below the resend grace
+            net.update(max_consec=rng.choice([2, 4, 6]), lat_hi=min(net["lat_hi"], 50_000_000))
     faults = []
     kinds = o["faults"]
     if kinds:
@@ -136,6 +141,28 @@ class Mon:
             return orig_es(taskSequence, memory, pckg, runnerContext)
         self.patch(ep, "execute_sequence", es)
 
+        # --- probe: a task command that reaches the worker before the publication notice of one of its inputs (C02's
+        #     "command overtakes the notice" schedule): seen on the worker's own socket
+        from cascade.executor.msg import DatasetPublished as _DP, TaskSequence as _TS
+        from cascade.executor.serde import des_message as _des
+        seen_by_worker = collections.defaultdict(set)
+
+        def zrecv(addr, frames):
+            if not addr.startswith("ipc:///tmp/") or len(frames) != 1:
+                return
+            try:
+                m = _des(frames[0])
+            except Exception:
+                return
+            if isinstance(m, _DP):
+                seen_by_worker[addr].add(m.ds)
+            elif isinstance(m, _TS):
+                own = {d for t in m.tasks for d in mon.job.outputs_of(t)}
+                need = {e.source for e in mon.job.edges if e.sink_task in m.tasks} - own
+                if need - seen_by_worker[addr]:
+                    K.probe("task_command_overtook_input_notice")
+        K.handlers["zrecv"].append(zrecv)
+
         # --- teardown markers
         orig_bs = bridge.Bridge.shutdown
 
@@ -221,6 +248,8 @@ def run(plan, ch, want_log=False):
     if ginfo is not None:
         work = {}
     fstate = dict(last_fault=None, fired=[])
+    fault_deadline = FAULT_DEADLINE_LOSSY_S if (net.get("drop") or net.get("dup")) else FAULT_DEADLINE_S
+    fstate["deadline"] = fault_deadline
 
     def fault_fired(kind, what):
         fstate["last_fault"] = K.now
@@ -312,7 +341,7 @@ def run(plan, ch, want_log=False):
                 return True
             return K.now > result["t_end"] + (CLEAN_DEADLINE_S + 20) * 10**9
         if fstate["last_fault"] is not None:
-            return K.now > fstate["last_fault"] + (FAULT_DEADLINE_S + 20) * 10**9
+            return K.now > fstate["last_fault"] + (fault_deadline + 20) * 10**9
         return K.now - K.t0 > 1500 * 10**9
     K.stop_when = stop_when
 
@@ -406,9 +435,17 @@ def _judge(plan, jp, job, K, mon, result, fstate, end, want_log, ref, ginfo):
             viol.append((prop, "helper_process_crashed", [c[:2] for c in early_crashes][:3], sig_base))
     else:
         last = fstate["last_fault"]
-        if verdict == "hang" or t_end is None or t_end - last > FAULT_DEADLINE_S * 10**9:
-            viol.append(("C05", "hang", dict(end=end, after_s=None if t_end is None else (t_end - last) / 1e9, fired=[(k, w) for k, w, _ in fired]),
-                         dict(sig_base, fault=fired[-1][0])))
+        if verdict == "hang" or t_end is None or t_end - last > fstate["deadline"] * 10**9:
+            # was the executor's one and only failure report dropped on the wire?  (it is sent once, then the executor terminates)
+            from cascade.executor.msg import ExecutorFailure
+            from cascade.executor.serde import des_message
+            lost_report = False
+            for (addr, raw), n in mon.sent.items():
+                if mon.recvd.get((addr, raw), 0) < n and isinstance(des_message(raw), ExecutorFailure):
+                    lost_report = True
+            viol.append(("C05", "hang", dict(end=end, after_s=None if t_end is None else (t_end - last) / 1e9, fired=[(k, w) for k, w, _ in fired],
+                                             executor_failure_report_lost=lost_report),
+                         dict(sig_base, fault=fired[-1][0], executor_failure_report_lost=lost_report)))
         if verdict == "returned" and not wrong:
             K.probe("run_succeeded_despite_fault")
 
